@@ -6,6 +6,7 @@ import Req.H2.Fields
 import Req.H1.Origin
 import Req.H3.BodyWrite
 import Req.H1.RoundTrip
+import Req.Client.Replay
 /-! Driver lanes of C01. -/
 namespace Req.Driver.L.C01
 open Req.Proto
@@ -308,7 +309,92 @@ def laneH3Body : List String → String
     | _, _, _, _ => "bad-op"
   | _ => "bad-op"
 
+/-! ### transparent replays -/
+
+def decodeKind : String → Option Req.Replay.BodyKind
+  | "none" => some .none
+  | "rew" => some .rewindable
+  | "one" => some .oneShot
+  | _ => none
+
+def showResult : Req.Replay.Result → String
+  | .accepted b => "accepted " ++ Wire.showBlob b
+  | .failed => "failed"
+  | .pending => "pending"
+
+def decodeH2Attempt (t : String) : Option Req.Replay.H2Attempt :=
+  match t.toList with
+  | ['A'] => some .accepted
+  | ['U'] => some .unusable
+  | c :: rest =>
+    match (String.ofList rest).toNat? with
+    | some k =>
+      if c == 'R' then some (.refused k) else if c == 'G' then some (.goAway k)
+      else if c == 'P' then some (.protoFromPeer k) else if c == 'O' then some (.other k) else none
+    | none => none
+  | [] => none
+
+/-- `c01h2retry <honest> <kind> <attempts> <data>`: attempts `A` accepted, `U` unusable connection,
+`R<k>` refused / `G<k>` GOAWAY / `P<k>` PROTOCOL_ERROR from the peer / `O<k>` other error after `k`
+more bytes of the body were read. -/
+def laneH2Retry : List String → String
+  | [honest, kind, attempts, data] =>
+    match Wire.decodeBool honest, decodeKind kind, (attempts.splitOn ",").mapM decodeH2Attempt,
+          Wire.decodeBody data with
+    | some h, some k, some as, some d =>
+      showResult (Req.Replay.h2Run ⟨h, true⟩ { kind := k, data := d, idempotent := false } as 0 0)
+    | _, _, _, _ => "bad-op"
+  | _ => "bad-op"
+
+def decodeH1Attempt (t : String) : Option Req.Replay.H1Attempt :=
+  match t.splitOn ":" with
+  | [flags, c] =>
+    match flags.toList, c.toNat? with
+    | [r, e, tch], some c =>
+      let err : Option (Option Req.Replay.H1Err) :=
+        if e == 'A' then some none else if e == 'N' then some (some .nothingWritten)
+        else if e == 'S' then some (some .readFromServer) else if e == 'I' then some (some .serverClosedIdle)
+        else if e == 'O' then some (some .other) else none
+      err.map fun err => { reused := r == '1', err := err, consumed := c, touched := tch == '1' }
+    | _, _ => none
+  | _ => none
+
+/-- `c01h1retry <honest> <kind> <idempotent> <attempts> <data>`: attempt = `<reused 0|1><A|N|S|I|O><touched 0|1>:<consumed>`. -/
+def laneH1Retry : List String → String
+  | [honest, kind, idem, attempts, data] =>
+    match Wire.decodeBool honest, decodeKind kind, Wire.decodeBool idem,
+          (attempts.splitOn ",").mapM decodeH1Attempt, Wire.decodeBody data with
+    | some h, some k, some i, some as, some d =>
+      showResult (Req.Replay.h1Run ⟨h, true⟩ { kind := k, data := d, idempotent := i } as 0)
+    | _, _, _, _, _ => "bad-op"
+  | _ => "bad-op"
+
+def decodeH3Attempt (t : String) : Option Req.Replay.H3Attempt :=
+  match t.splitOn ":" with
+  | [flags, c] =>
+    match flags.toList, c.toNat? with
+    | [r, e], some c =>
+      let err : Option (Option Req.Replay.H3Err) :=
+        if e == 'A' then some none else if e == 'T' then some (some .timeout)
+        else if e == 'C' then some (some .connection) else if e == 'O' then some (some .other) else none
+      err.map fun err => { reused := r == '1', err := err, consumed := c }
+    | _, _ => none
+  | _ => none
+
+/-- `c01h3retry <honest> <timeout-fix> <kind> <idempotent> <attempts> <data>`: attempt = `<reused 0|1><A|T|C|O>:<consumed>`. -/
+def laneH3Retry : List String → String
+  | [honest, tfix, kind, idem, attempts, data] =>
+    match Wire.decodeBool honest, Wire.decodeBool tfix, decodeKind kind, Wire.decodeBool idem,
+          (attempts.splitOn ",").mapM decodeH3Attempt, Wire.decodeBody data with
+    | some h, some tf, some k, some i, some as, some d =>
+      showResult (Req.Replay.h3Run ⟨h, tf⟩ { kind := k, data := d, idempotent := i } as 0)
+    | _, _, _, _, _, _ => "bad-op"
+  | _ => "bad-op"
+
 def lanes : List (String × (List String → String)) := [
+  ("c01h2retry", laneH2Retry),
+  ("c01h1retry", laneH1Retry),
+  ("c01h3retry", laneH3Retry),
   ("c01send", laneSend),
   ("c01h2body", laneH2Body),
   ("c01h3body", laneH3Body),
